@@ -91,7 +91,7 @@ type s4Tr struct {
 }
 
 func (t *s4Tr) fail(pos token.Pos, format string, a ...interface{}) {
-	die("%s: %s", t.fset.Position(pos), fmt.Sprintf(format, a...))
+	s4Die("%s: %s", t.fset.Position(pos), fmt.Sprintf(format, a...))
 }
 
 func (t *s4Tr) typeOf(e ast.Expr) types.Type {
@@ -1455,13 +1455,23 @@ func (t *s4Tr) fn(fd *ast.FuncDecl) {
 	t.order = append(t.order, name)
 }
 
+// s4Die is how this sub-command stops (file:line message, exit status 2); gosm4_test.go replaces it by a
+// recoverable panic.
+var s4Die = die
+
 func genGoSM4() {
+	writeIfChanged("SM4Code.lean", genGoSM4Text())
+}
+
+// genGoSM4Text translates the three files under `repo` and returns the text of SM4Code.lean
+func genGoSM4Text() []byte {
+	s4InProgress = map[string]bool{}
 	fset := token.NewFileSet()
 	var files []*ast.File
 	for _, rel := range []string{"sm4/sm4.go", "sm4/sm4_const.go", "sm4/sm4_generic.go"} {
 		f, err := parser.ParseFile(fset, filepath.Join(repo, rel), nil, 0)
 		if err != nil {
-			die("%v", err)
+			s4Die("%v", err)
 		}
 		files = append(files, f)
 	}
@@ -1469,7 +1479,7 @@ func genGoSM4() {
 	conf := types.Config{Importer: importer.ForCompiler(fset, "source", nil)}
 	pkg, err := conf.Check("sm4", fset, files, info)
 	if err != nil {
-		die("type-check sm4/sm4.go + sm4_const.go + sm4_generic.go: %v", err)
+		s4Die("type-check sm4/sm4.go + sm4_const.go + sm4_generic.go: %v", err)
 	}
 	t := &s4Tr{fset: fset, info: info, pkg: pkg, funcs: map[string]*ast.FuncDecl{}, sigs: map[string]*s4Sig{},
 		tables: map[string]int64{}, consts: map[string]bool{}, structs: map[string]bool{}}
@@ -1477,7 +1487,7 @@ func genGoSM4() {
 		for _, d := range f.Decls {
 			if fd, ok := d.(*ast.FuncDecl); ok && fd.Recv == nil {
 				if _, dup := t.funcs[fd.Name.Name]; dup {
-					die("%s: function %s declared twice", fset.Position(fd.Pos()), fd.Name.Name)
+					s4Die("%s: function %s declared twice", fset.Position(fd.Pos()), fd.Name.Name)
 				}
 				t.funcs[fd.Name.Name] = fd
 			}
@@ -1488,7 +1498,7 @@ func genGoSM4() {
 	for _, name := range gosm4Targets {
 		fd, ok := t.funcs[name]
 		if !ok {
-			die("sm4: function %s not found", name)
+			s4Die("sm4: function %s not found", name)
 		}
 		if s, ok := t.sigs[name]; ok && s.done {
 			continue
@@ -1528,9 +1538,9 @@ func genGoSM4() {
 	sb.WriteString(t.body.String())
 	sb.WriteString("end SMGo.Gen.SM4Code\n")
 	if len(t.order) != len(gosm4Targets) {
-		die("sm4: %d functions translated, %d expected (%v)", len(t.order), len(gosm4Targets), t.order)
+		s4Die("sm4: %d functions translated, %d expected (%v)", len(t.order), len(gosm4Targets), t.order)
 	}
-	writeIfChanged("SM4Code.lean", []byte(sb.String()))
+	return []byte(sb.String())
 }
 
 func init() {
